@@ -259,25 +259,33 @@ func (g *Gen) jump() N {
 	return opts[g.pick(len(opts))]
 }
 
+// loop generates a loop; a non-empty label is attached to the iteration statement itself
+// (continue L needs L to label an iteration statement, 12.7), not to a block around it.
 func (g *Gen) loop(d int, label string) N {
 	isLabeled := label != ""
 	if isLabeled {
 		g.labels = append(g.labels, lab{label, true})
 		defer func() { g.labels = g.labels[:len(g.labels)-1] }()
 	}
+	lb := func(s N) N {
+		if isLabeled {
+			return Label(label, s)
+		}
+		return s
+	}
 	k := g.fresh("k")
 	lim := Num(1 + g.pick(3))
 	switch g.pick(5) {
 	case 0:
-		return For(Var(k, Num(0)), Bin("<", Id(k), lim), Upd("++", false, Id(k)), g.loopBody(d))
+		return lb(For(Var(k, Num(0)), Bin("<", Id(k), lim), Upd("++", false, Id(k)), g.loopBody(d)))
 	case 1:
 		body := g.loopBody(d)
 		body["body"] = append([]N{Expr(Upd("++", false, Id(k)))}, asNodes(body["body"])...)
-		return Block(Var(k, Num(0)), While(Bin("<", Id(k), lim), body))
+		return Block(Var(k, Num(0)), lb(While(Bin("<", Id(k), lim), body)))
 	case 2:
 		body := g.loopBody(d)
 		body["body"] = append([]N{Expr(Upd("++", false, Id(k)))}, asNodes(body["body"])...)
-		return Block(Var(k, Num(0)), DoWhile(body, Bin("<", Id(k), lim)))
+		return Block(Var(k, Num(0)), lb(DoWhile(body, Bin("<", Id(k), lim))))
 	case 3:
 		var src N
 		if len(g.objs) > 0 && g.chance(50) {
@@ -286,9 +294,9 @@ func (g *Gen) loop(d int, label string) N {
 			src = Obj("p", g.prim(), "q", g.prim())
 		}
 		g.vars = append(g.vars, k)
-		return ForIn(true, k, src, g.loopBody(d))
+		return lb(ForIn(true, k, src, g.loopBody(d)))
 	default:
-		return For(nil, Bin("<", Upd("++", false, Id(g.globalCounter())), lim), nil, g.loopBody(d))
+		return lb(For(nil, Bin("<", Upd("++", false, Id(g.globalCounter())), lim), nil, g.loopBody(d)))
 	}
 }
 
@@ -337,7 +345,7 @@ func (g *Gen) stmt(d int) N {
 		return g.loop(d, "")
 	case 9:
 		l := g.fresh("L")
-		return Label(l, g.loop(d, l))
+		return g.loop(d, l)
 	case 10:
 		l := g.fresh("L")
 		g.labels = append(g.labels, lab{l, false})
